@@ -45,6 +45,22 @@ fn exec(line: &str) -> String {
                 None => "none".into(),
             }
         }
+        ["costsum", rest @ ..] => {
+            // the two forms the client's cost sums take: `.sum::<Amount>()` and a `+=` loop
+            let xs: Vec<Amount> = rest.iter().map(|a| Amount::from_str(a).expect("dec")).collect();
+            let by_sum = xs.iter().copied().sum::<Amount>();
+            let by_ref_sum: Amount = xs.iter().sum();
+            let mut by_add = Amount::ZERO;
+            for x in &xs {
+                by_add += *x;
+            }
+            if by_sum == by_add && by_sum == by_ref_sum { format!("sum {by_sum}") } else { format!("disagree {by_sum} {by_ref_sum} {by_add}") }
+        }
+        ["showatto", n] => {
+            // what the CLI prints under the label "AttoTokens": `{}` of `AttoTokens::as_atto()`
+            let a = AttoTokens::from_atto(Amount::from_str(n).expect("dec amount"));
+            hex(format!("{}", a.as_atto()).as_bytes())
+        }
         _ => "bad-op".into(),
     });
     r.unwrap_or_else(|_| "panic".into())
@@ -108,6 +124,22 @@ fn oracle(line: &str, out_line: &str, out: &mut Out) {
                 if n < two256() {
                     out.oracle_fail("parse-complete", line, &format!("{s:?} denotes representable {n} but was rejected: {out_line}"));
                 }
+            }
+        }
+        ["costsum", rest @ ..] => {
+            let exact: BigUint = rest.iter().map(|a| BigUint::parse_bytes(a.as_bytes(), 10).expect("dec")).sum();
+            // known finding K-s: beyond 2^256 the sums wrap; the claim is made for representable sums only
+            if exact < two256() && out_line != format!("sum {exact}") && out_line != "overflow" {
+                out.oracle_fail("cost-sum-exact", line, &format!("got {out_line}, the exact sum {exact} is representable"));
+            }
+            if exact < two256() && out_line == "overflow" {
+                out.oracle_fail("cost-sum-exact", line, &format!("overflow reported for the representable sum {exact}"));
+            }
+        }
+        ["showatto", n] => {
+            let s = String::from_utf8(unhex(out_line).unwrap_or_default()).unwrap_or_default();
+            if s != *n {
+                out.oracle_fail("atto-line-denotes", line, &format!("printed {s:?} under the label AttoTokens for {n} atto"));
             }
         }
         ["add", a, b] | ["sub", a, b] => {
@@ -231,8 +263,20 @@ fn main() {
                   "115792089237316195423570985008687907853269984665640564039458", "0.a", "0.0.0", "a"] {
             v.push(format!("parse {}", hex(s.as_bytes())));
         }
+        for l in ["costsum", "costsum 1 2 3", "showatto 0", "showatto 5",
+                  "costsum 115792089237316195423570985008687907853269984665640564039457584007913129639935 1"] {
+            v.push(l.to_string());
+        }
         for _ in 0..args.n {
-            match rng.below(10) {
+            match rng.below(12) {
+                10 => {
+                    let k = rng.below(6);
+                    let xs: Vec<String> = (0..k)
+                        .map(|_| if rng.chance(1, 6) { interesting_amount(&mut rng).to_string() } else { (interesting_amount(&mut rng) >> 8usize).to_string() })
+                        .collect();
+                    v.push(format!("costsum {}", xs.join(" ")).trim_end().to_string())
+                }
+                11 => v.push(format!("showatto {}", interesting_amount(&mut rng))),
                 0..=2 => v.push(format!("display {}", interesting_amount(&mut rng))),
                 3..=5 => v.push(format!("parse {}", hex(grammar_string(&mut rng).as_bytes()))),
                 6..=7 => v.push(format!("parse {}", hex(malformed_string(&mut rng).as_bytes()))),
